@@ -477,12 +477,18 @@ def element(ctx, depth):
             entries.append([n, e])
         if ctx.opts.get("dict_attrs") and d(st.integers(0, 2)) == 0:
             pos = d(st.integers(0, len(entries)))
-            entries.insert(pos, [None, ["var", "d0"]])
-            if d(st.integers(0, 3)) == 0:
+            # (a dictionary entry is a plain Python expression: with a
+            # type prefix it would read as "name expression")
+            entries.insert(pos, [None, ["rec", ctx.newtag("at"),
+                                        ["var", "d0"]]
+                                 if ctx.opts.get("dict_rec")
+                                 else ["var", "d0"]])
+            if d(st.integers(0, 3)) == 0 and not ctx.opts.get("dict_rec"):
                 # a second dictionary in the same statement
                 entries.insert(d(st.integers(0, len(entries))),
                                [None, ["var", "d0"]])
-            if d(st.booleans()) and "k" not in seen:
+            if d(st.booleans()) and "k" not in seen and \
+                    not ctx.opts.get("dict_rec"):
                 # a named entry after the dictionary that the dictionary
                 # supplies as well
                 entries.append(["k", rec(ctx, "at", scalar_expr(ctx))])
